@@ -20,7 +20,8 @@ type Violation struct {
 	Index     int64  `json:"index"`
 	Signature string `json:"signature"` // oracle component + failure class + defect predicate
 	Detail    string `json:"detail"`
-	Case      string `json:"case"` // decoded case, human readable
+	Case      string `json:"case"`            // decoded case, human readable
+	Extra     string `json:"extra,omitempty"` // machine-readable replay data (e.g. scheduler configuration)
 }
 
 type Result struct {
@@ -52,6 +53,7 @@ type Ctx struct {
 	Replay      bool
 	ReplayScope string
 	ReplayIndex int64
+	ReplayExtra string
 	Verbose     bool
 
 	marker   []byte // mmap'd in-flight marker: survives a SIGKILL of the worker
@@ -199,6 +201,11 @@ func (c *Ctx) Sample(idx int64, render func() string) {
 
 // Violate records a violation (at most 3 full artefacts per signature and worker).
 func (c *Ctx) Violate(scope string, idx int64, sig, detail, cas string) {
+	c.ViolateX(scope, idx, sig, detail, cas, "")
+}
+
+// ViolateX is Violate with machine-readable replay data attached.
+func (c *Ctx) ViolateX(scope string, idx int64, sig, detail, cas, extra string) {
 	c.R.NViolations++
 	c.sigSeen[sig]++
 	if c.Verbose {
@@ -213,7 +220,7 @@ func (c *Ctx) Violate(scope string, idx int64, sig, detail, cas string) {
 	if len(cas) > 4000 {
 		cas = cas[:4000] + "..."
 	}
-	c.R.Violations = append(c.R.Violations, Violation{c.Prop, c.Tier, scope, idx, sig, detail, cas})
+	c.R.Violations = append(c.R.Violations, Violation{c.Prop, c.Tier, scope, idx, sig, detail, cas, extra})
 }
 
 func (c *Ctx) Finish() {
